@@ -19,13 +19,17 @@ CLAIMED = {
         ref="DESIGN.md 5/C20"),
     "C01": dict(
         text="Coq: L1 model of the whole schema pipeline (schema.go, type.go, schema_props.go, object/slice validators, values, formats) "
-             "and L0 draft-4 function; proved so far: one-shot wrapper = validator verdict, validity of merged results, and one refutation "
-             "witness per recorded finding class (the full agreement statement is false of the faithful model); the full agreement theorem "
-             "outside the classes is being proved group by group (partial). Tie: L1 vs Go on verdicts (and all richer observables), and "
+             "and L0 draft-4 function; proved: the agreement theorem L1 verdict = L0 verdict on the fragment 'clean' (type, enum, "
+             "numeric, string keywords, items / tuple / additionalItems, min/maxItems, properties / required / additionalProperties / "
+             "min/maxProperties, allOf, anyOf, not, at every depth; JSON data without null) for every oracle, environment and numeric "
+             "implementation with a total order - by induction on the nesting depth through every keyword group; the one-shot wrapper = "
+             "validator verdict; validity of merged results; one refutation witness per recorded finding class (the unrestricted statement "
+             "is false of the faithful model). Outside the proved fragment (references, formats, patternProperties, dependencies, oneOf, "
+             "uniqueItems, null) agreement is decided per case by the L0 function evaluated in exact arithmetic (partial). Tie: L1 vs Go on verdicts (and all richer observables), and "
              "Go vs L0 in exact decimal arithmetic on every case, classified against the recorded finding classes.",
         note=TB + "Axioms: the refutation witnesses compute with Flocq binary64 and inherit the stdlib real-number axioms, classic and "
              "functional extensionality (named in DESIGN.md 7). go-openapi/spec's ExpandSchema and the format registry are oracles.",
-        tech="Rocq proof (partial: wrapper, merge laws, refutation witnesses) + L1/L0 differential correspondence",
+        tech="Rocq proof (agreement theorem on the clean fragment, wrapper, merge laws, refutation witnesses) + L1/L0 differential correspondence",
         ref="DESIGN.md 5/C01"),
     "C06": dict(
         text="Coq theorem over the L1 pipeline: for every schema, value (JSON, typed, json.Number), options, oracle answers and numeric "
